@@ -36,7 +36,7 @@ def run(chk):
     validate.field_kernels(base, chk, 400 if chk.tier == "thorough" else 24)
     # shape of the assembly: straight-line, memory only through the pointer arguments at constant offsets
     for name, fn in base.asm_funcs.items():
-        probs = asm.static_checks(fn)
+        probs = asm.static_checks(fn, fn.get("int_args", ()))
         chk.fact("fe_amd64.s %s: straight-line subset, memory operands = constant offsets from pointer arguments (%d instructions)" % (name, len(fn["ins"])),
                  not probs, [K.F + name], detail="; ".join(probs[:3]))
     # aliasing: out==a, out==b, a==b, all three (loads/stores modelled in program order)
@@ -223,7 +223,17 @@ def config_equiv(base, base2, chk, fname):
                     if i not in limbs:
                         limbs[i] = [dom.input("arg%d.l%d" % (i, j), 0, K.B) for j in range(5)]
                     args.append(X.Ptr(ex.new_obj(pth, ex.prog.T(K.F + "Element"), name="arg%d" % i, init=list(limbs[i]))))
-            paths = ex.call(fname, args, pth)
+            if ex.prog.fn(fname).get("external") and fname in ex.summaries:
+                # no Go body in this configuration: the assembly routine, run by the assembly interpreter
+                try:
+                    ex.summaries[fname](ex, pth, args)
+                    pth.outcome = ("ret", ())
+                except X.ExecError as e_:
+                    pth.outcome = ("error", "assembly: %s" % e_)
+                paths = [pth]
+                chk.functions[fname] = {"mode": "Int-LF (amd64 assembly interpreter) vs the portable body"}
+            else:
+                paths = ex.call(fname, args, pth)
             if len(paths) != 1 or paths[0].outcome[0] != "ret":
                 chk.add(Ob("%s [%s, ints %s]: followed to its return" % (short, ("default", "purego")[ci], ivals), "error:%s" % ([q.outcome for q in paths][:1],), 0, [fname], "Int-LF"))
                 return
